@@ -354,7 +354,18 @@ def _scanner(rep, M, src):
     loops_outer = [n for n in ast.walk(fn.node) if isinstance(n, ast.While) and not any(n in list(ast.walk(h)) for h in helpers)]
     bad = 0
     n_loops = 0
-    scopes = [(h, Func("dlde", None, h.name, h)) for h in helpers] + [(fn.node, fn)]
+    # scanning helpers: nested functions, and methods of the class / module functions the parser calls (one level)
+    ext = []
+    for n in ast.walk(fn.node):
+        if isinstance(n, ast.Call):
+            callee = None
+            if isinstance(n.func, ast.Attribute) and isinstance(n.func.value, ast.Name) and n.func.value.id in ("cls", "self", "DataSet") and n.func.attr in C.methods:
+                callee = C.methods[n.func.attr]
+            elif isinstance(n.func, ast.Name) and f"dlde.{n.func.id}" in M.funcs and n.func.id not in [h.name for h in helpers]:
+                callee = M.funcs[f"dlde.{n.func.id}"]
+            if callee is not None and callee.node is not fn.node and callee not in ext and any(isinstance(x, ast.While) for x in ast.walk(callee.node)):
+                ext.append(callee)
+    scopes = [(h, Func("dlde", None, h.name, h)) for h in helpers] + [(c.node, c) for c in ext] + [(fn.node, fn)]
     returns_progress = {}
     for node, f in scopes:
         whiles = [n for n in ast.walk(node) if isinstance(n, ast.While) and (node is not fn.node or n in loops_outer)]
